@@ -150,7 +150,7 @@ Proof.
   destruct (w_mid m <=? MSG_ID_SPECIAL).
   { destruct (w_mid m =? MSG_ID_OOB); [|destruct (w_mid m =? MSG_ID_CLOSE)]; inversion E; subst; clear E; cbn [srcs with_srcs];
       apply SIMPLE; reflexivity. }
-  set (sm := {| st_pay := w_pay m; st_mid := w_mid m; st_src := i |}) in *.
+  set (sm := {| st_pay := w_pay m; st_mid := w_mid m; st_src := i; st_topic := topic_of_wire (w_wtopic m) |}) in *.
   destruct (process_msg Repaired (with_conn true s0) (w_mid m) sm (topic_of_wire (w_wtopic m)) (w_topics m) (f_min f1))
     as [[nw s2]|] eqn:Ep.
   2:{ inversion E; subst; clear E; cbn [srcs with_srcs]. apply SIMPLE; reflexivity. }
